@@ -208,7 +208,7 @@ extern "C" void harness_run()
           if (c >= 0)
           {
             // a reset right at accept is a property of the NEXT planned exchange if it says so
-            if (e < P->plan.size() && P->plan[e].fault == A_RST_AT_ACCEPT) { e++; P->exchangesRun++; peer::rst_close(c); }
+            if (e < P->plan.size() && P->plan[e].fault == A_RST_AT_ACCEPT) { e++; P->exchangesRun++; sim::count("c17.fault.RST at accept", 1); peer::rst_close(c); }
             else held.push_back({c, false, "", connSeq++});
           }
         }
@@ -236,6 +236,7 @@ extern "C" void harness_run()
           int exId = (int)e;
           e++;
           P->exchangesRun++;
+          { std::string cn = std::string("c17.fault.") + fname[x.fault]; sim::count(cn.c_str(), 1); }
           if (x.fault == A_RST_AT_ACCEPT) x.fault = A_RST_AFTER_K, x.pos = 1; // on a kept-alive connection: as soon as the request starts to arrive
           if (x.permille >= 0 && (x.fault == A_RST_AFTER_K || x.fault == A_FIN_AFTER_K))
           {
